@@ -171,6 +171,12 @@ def binop(eng, op, a, b):
         if isinstance(op, ast.Sub): return a - b
     # numpy vectors
     if isinstance(a, NVec) or isinstance(b, NVec):
+        a2d = isinstance(a, NVec) and a.items and isinstance(a.items[0], NVec)
+        b2d = isinstance(b, NVec) and b.items and isinstance(b.items[0], NVec)
+        if a2d and not b2d:
+            return NVec([binop(eng, op, row, b) for row in a.items])      # row-wise broadcast
+        if b2d and not a2d:
+            return NVec([binop(eng, op, a, row) for row in b.items])
         if isinstance(a, NVec) and isinstance(b, NVec):
             if len(a.items) != len(b.items):
                 if len(b.items) == 1:
@@ -861,6 +867,9 @@ def _set_remove(eng, s, x):
 
 
 SET_METHODS['remove'] = Builtin('set.remove', _set_remove)
+SET_METHODS['issubset'] = Builtin('set.issubset', lambda eng, s, o: set(s).issubset(set(eng.hashable(x) for x in eng.iterate(o))))
+SET_METHODS['union'] = Builtin('set.union', lambda eng, s, o: set(s) | set(eng.hashable(x) for x in eng.iterate(o)))
+SET_METHODS['copy'] = Builtin('set.copy', lambda eng, s: set(s))
 
 
 # ----------------------------------------------------------------------------------------
@@ -1277,6 +1286,47 @@ def m_log(eng, x):
     return z3.Real(eng.fresh('log'))
 
 
+def _trig(name):
+    def f(eng, x):
+        if isinstance(x, (int, Fraction)) and x == 0:
+            return Fraction(1 if name == 'cos' else 0)
+        eng.assumptions_used.add('sin/cos of a non-zero angle are uninterpreted reals in [-1, 1]')
+        r = z3.Real(eng.fresh(name))
+        eng.assume(z3.And(r >= -1, r <= 1))
+        return r
+    return Builtin(name, f)
+
+
+m_cos, m_sin = _trig('cos'), _trig('sin')
+
+
+@B('radians')
+def m_radians(eng, x):
+    if isinstance(x, (int, Fraction)) and x == 0:
+        return Fraction(0)
+    return z3.Real(eng.fresh('radians'))
+
+
+@B('np.argmax')
+def np_argmax(eng, v):
+    items = v.items if isinstance(v, NVec) else eng.iterate(v)
+    best = 0
+    for k in range(1, len(items)):
+        if eng.truth(compare(eng, ast.Gt(), items[k], items[best])):
+            best = k
+    return best
+
+
+@B('np.argmin')
+def np_argmin(eng, v):
+    items = v.items if isinstance(v, NVec) else eng.iterate(v)
+    best = 0
+    for k in range(1, len(items)):
+        if eng.truth(compare(eng, ast.Lt(), items[k], items[best])):
+            best = k
+    return best
+
+
 @B('fsolve')
 def sp_fsolve(eng, f, x0, *a, **k):
     eng.assumptions_used.add('scipy.optimize.fsolve is external: it returns a 1-element array holding an unconstrained real')
@@ -1302,6 +1352,12 @@ def np_array(eng, x, dtype=None):
 def np_zeros(eng, n, dtype=None):
     if not isinstance(n, int): raise Unsupported('np.zeros of symbolic size')
     return NVec([Fraction(0)] * n)
+
+
+@B('np.ones')
+def np_ones(eng, n, dtype=None):
+    if not isinstance(n, int): raise Unsupported('np.ones of symbolic size')
+    return NVec([Fraction(1)] * n)
 
 
 @B('np.dot')
@@ -1350,7 +1406,7 @@ BUILTINS['None'] = None
 BUILTINS['print'] = Builtin('print', lambda eng, *a, **k: None)
 
 _np = {
-    'array': np_array, 'zeros': np_zeros, 'dot': np_dot, 'sqrt': m_sqrt, 'sum': np_sum,
+    'array': np_array, 'zeros': np_zeros, 'ones': np_ones, 'dot': np_dot, 'argmax': np_argmax, 'argmin': np_argmin, 'sqrt': m_sqrt, 'sum': np_sum,
     'nan': NAN, 'inf': V.Inf(1), 'float64': b_float, 'abs': b_abs, 'ceil': m_ceil, 'floor': m_floor,
     'pi': None,
 }
@@ -1364,9 +1420,9 @@ MODULES = {
         'ascii_letters': _string.ascii_letters, 'digits': _string.digits,
         'punctuation': _string.punctuation, 'whitespace': _string.whitespace,
     },
-    'math': {'sqrt': m_sqrt, 'ceil': m_ceil, 'floor': m_floor,
+    'math': {'sqrt': m_sqrt, 'ceil': m_ceil, 'floor': m_floor, 'cos': m_cos, 'sin': m_sin, 'radians': m_radians,
              'exp': m_exp, 'log': m_log,
-             'sin': _unsupported_fn('sin'), 'cos': _unsupported_fn('cos')},
+             },
     'numpy': dict(_np, np=_np_mod, linalg=_np_linalg),
     'numpy.linalg': {'norm': np_norm},
     'functools': {'partial': b_partial},
